@@ -59,6 +59,23 @@ def kw_valid(fam, kw):
     return True
 
 
+def apply_dist_kw(dists, kw):
+    """Composite.set_distribution_params with keywords '<stage>_<param>': distributions in insertion order; the first one
+    whose new keywords are rejected raises (its old keywords are restored) and the later ones are not reached"""
+    for t, d in dists.items():
+        if "fam" not in d:
+            continue
+        new = dict(d["kw"])
+        for name, v in kw.items():
+            tt, _, pk = name.partition("_")
+            if tt == t and pk in new:
+                new[pk] = v
+        if not kw_valid(d["fam"], new):
+            return False
+        d["kw"] = new
+    return True
+
+
 def normalise(case):
     """Ops with every frozen weight list fitted to the max_time in force; a max_time change carries the re-set
     frozen distributions of that moment (the precondition of DESIGN.md section 6)."""
@@ -93,14 +110,7 @@ def normalise(case):
             if k == "likelihood_given":      # given_params accepts only names that get_params() reports at that moment
                 op["kw"] = {n: v for n, v in op["kw"].items() if n.split("_")[0] not in STAGES
                             or (n.split("_")[0] in a["dists"] and n.split("_")[1] in a["dists"][n.split("_")[0]].get("kw", {}))}
-            for name, v in op["kw"].items():
-                t, _, pk = name.partition("_")
-                d = a["dists"].get(t)
-                if d is not None and "fam" in d and pk in d["kw"]:
-                    new = dict(d["kw"])
-                    new[pk] = v
-                    if kw_valid(d["fam"], new):
-                        d["kw"] = new
+            apply_dist_kw(a["dists"], op["kw"])
         out.append(op)
     return out
 
@@ -198,6 +208,15 @@ def nondist_params(model):
     return {k: float(v) for k, v in model.get_params().items() if k.split("_")[0] not in STAGES}
 
 
+def reset_module_caches():
+    """every history starts from empty module-level caches, so that it is self-contained (replays reproduce)"""
+    import lymph
+    for fn in (lymph.utils.comp_transition_tensor, lymph.utils.get_state_idx_matrix, lymph.matrix.generate_transition,
+               lymph.matrix.generate_observation, lymph.matrix.evolve_midext):
+        if hasattr(fn, "cache_clear"):
+            fn.cache_clear()
+
+
 class Live:
     """a live model and the shadow configuration the harness derives from the operations it issued"""
 
@@ -285,10 +304,7 @@ class Live:
                 m.load_patient_data(make_table(self.spec, op["table"]))
                 self.table = copy.deepcopy(op["table"])
             elif k == "cache_clear":
-                import lymph
-                for fn in (lymph.utils.comp_transition_tensor, lymph.utils.get_state_idx_matrix, lymph.matrix.generate_transition,
-                           lymph.matrix.generate_observation, lymph.matrix.evolve_midext):
-                    fn.cache_clear()
+                reset_module_caches()
             else:
                 raise HarnessError(f"unknown mutator {k}")
         except HarnessError:
@@ -298,14 +314,7 @@ class Live:
         return None
 
     def _dist_kw(self, kw):
-        for name, v in kw.items():
-            t, _, pk = name.partition("_")
-            d = self.dists.get(t)
-            if d is not None and "fam" in d and pk in d["kw"]:
-                new = dict(d["kw"])
-                new[pk] = v
-                if kw_valid(d["fam"], new):
-                    d["kw"] = new
+        apply_dist_kw(self.dists, kw)
 
 
 def run_query(m, op):
@@ -343,6 +352,29 @@ def run_query(m, op):
     return ("ok", v)
 
 
+class uncached:
+    """While the fresh model is evaluated the module-level functools caches are bypassed (their `__wrapped__` functions are
+    called), so that the fresh answer cannot be contaminated by entries the live instances left there."""
+    NAMES = ("comp_transition_tensor", "get_state_idx_matrix", "generate_transition", "generate_observation", "evolve_midext")
+
+    def __enter__(self):
+        import sys
+        self.saved = []
+        for mname, mod in list(sys.modules.items()):
+            if mname == "lymph" or mname.startswith("lymph."):
+                for n in self.NAMES:
+                    f = getattr(mod, n, None)
+                    if f is not None and hasattr(f, "__wrapped__") and hasattr(f, "cache_info"):
+                        self.saved.append((mod, n, f))
+                        setattr(mod, n, f.__wrapped__)
+        return self
+
+    def __exit__(self, *exc):
+        for mod, n, f in self.saved:
+            setattr(mod, n, f)
+        return False
+
+
 def same(a, b, tol=1e-9):
     if a[0] != b[0]:
         return False
@@ -365,6 +397,19 @@ def same(a, b, tol=1e-9):
         return bool(inf_ok and np.all(np.abs(x[fin] - y[fin]) <= tol * np.maximum(1.0, np.abs(y[fin]))))
 
 
+def where_differs(a, b):
+    try:
+        x, y = np.asarray(a[1], dtype=float), np.asarray(b[1], dtype=float)
+        if x.shape != y.shape:
+            return {"shape_actual": list(x.shape), "shape_expected": list(y.shape)}
+        with np.errstate(invalid="ignore"):
+            d = np.abs(np.nan_to_num(x, nan=1e300, posinf=1e301, neginf=-1e301) - np.nan_to_num(y, nan=1e300, posinf=1e301, neginf=-1e301))
+        idx = tuple(int(i) for i in np.unravel_index(int(np.argmax(d)), d.shape)) if d.ndim else ()
+        return {"index": list(idx), "actual_at": float(x[idx]), "expected_at": float(y[idx])}
+    except Exception:  # noqa: BLE001
+        return {}
+
+
 def brief(r):
     if r is None:
         return None
@@ -382,6 +427,7 @@ def brief(r):
 # ======================================================================================================
 def check_py(case, fresh_memo=None, stop_first=True):
     """Run a history on live models; returns a list of mismatch dicts (empty = property holds on this history)."""
+    reset_module_caches()
     lives = [Live(sp) for sp in case["instances"]]
     bad = []
     for k, op in enumerate(normalise(case)):
@@ -412,12 +458,13 @@ def check_py(case, fresh_memo=None, stop_first=True):
             if key is not None and key in fresh_memo:
                 rf = fresh_memo[key]
             else:
-                rf = run_query(resolve(lv.fresh(), op.get("path", "")), again)
+                with uncached():
+                    rf = run_query(resolve(lv.fresh(), op.get("path", "")), again)
                 if key is not None:
                     fresh_memo[key] = rf
             if not same(r1, rf):
                 what = {"observable": f"{_call(op)} on the live {lv.spec['cls']} vs a freshly constructed one",
-                        "actual": brief(r1), "expected": brief(rf),
+                        "actual": brief(r1), "expected": brief(rf), "first_difference": where_differs(r1, rf),
                         "statement": "every query equals the query on a fresh model with the same configuration (C09_fresh_equiv)"}
             elif lv.spec["cls"] != "HPVUnilateral" and lv.params is not None and not same(("ok", nondist_params(lv.model)), ("ok", lv.params)):
                 what = {"observable": "get_params() changed without a parameter-setting call", "actual": nondist_params(lv.model),
@@ -576,6 +623,7 @@ def py_view(m):
 
 
 def impl_fn(case):
+    reset_module_caches()
     lives = [Live(sp) for sp in case["instances"]]
     outs = []
     for op in normalise(case):
@@ -755,10 +803,27 @@ def edge_groups(gspec):
 
 
 class GState:
-    def __init__(self, spec, names):
+    def __init__(self, spec, names, pool=None):
         self.spec, self.names = spec, names
         self.mt = spec["max_time"]
         self.mods, self.dists, self.has_table, self.loads = {}, {}, False, 0
+        self.params = {}                      # last value the generator issued per parameter name
+        self.pool = pool if pool is not None else {}     # values issued to ANY instance, per short parameter name
+
+    def value(self, rng, name):
+        """a parameter value; often one that this or another live instance already uses (equal arguments reach the
+        value-keyed module caches from different instances / at different times)"""
+        short = "_".join(name.split("_")[-2:])
+        r = rng.random()
+        if r < 0.2 and name in self.params:
+            v = self.params[name]
+        elif r < 0.45 and short in self.pool:
+            v = rng.choice(self.pool[short])
+        else:
+            v = gen.gen_value(rng)
+        self.params[name] = v
+        self.pool.setdefault(short, []).append(v)
+        return v
 
 
 def gen_op(rng, gs: GState, i, coq: bool):
@@ -879,15 +944,25 @@ class random_frozen:
 
 def gen_param_kw(rng, gs, coq):
     kw = {}
-    if coq:
-        groups = edge_groups(gs.spec["graph"])
+    groups = edge_groups(gs.spec["graph"])
+    micro_groups = [g for g in groups if any(n.endswith("_micro") for n in g) and all(n in gs.params for n in g)]
+    if micro_groups and rng.random() < 0.5:
+        # same spread, new micro_mod (and the other way round): the tensor cache key differs in one argument only
+        g = rng.choice(micro_groups)
+        keep = rng.choice(["_spread", "_micro"])
+        for n in g:
+            kw[n] = gs.params[n] if n.endswith(keep) else gs.value(rng, n)
+        if not coq:                # composite parameter names carry side prefixes: use the names of get_params()
+            kw = {n: v for n, v in kw.items() if n in gs.names}
+    elif coq:
         for g in rng.sample(groups, rng.randint(0, len(groups))):
             for n in g:
-                kw[n] = gen.gen_value(rng)
+                kw[n] = gs.value(rng, n)
     else:
         names = gs.names
         for n in rng.sample(names, rng.randint(0, len(names))):
-            kw[n] = gen.gen_value(rng)
+            kw[n] = gs.value(rng, n)
+    prev = {}
     for t, d in gs.dists.items():
         if "fam" in d and rng.random() < 0.5:
             k = rng.choice(list(d["kw"]))
@@ -896,22 +971,28 @@ def gen_param_kw(rng, gs, coq):
             else:
                 v = rng.randint(0 if k == "a" else 1, 8) / 4.0
             if not coq and rng.random() < 0.12:
-                v = -0.5                                     # rejected by the family: ValueError, old value restored
-            else:
-                d["kw"][k] = v
+                # rejected by the family: ValueError, old value restored.  Alone among the distribution keywords: a raise
+                # half-way through set_params leaves the later distributions / leaves untouched (C12's business).
+                for n in [n for n in kw if n.split("_")[0] in STAGES]:
+                    gs.dists[n.split("_")[0]]["kw"][n.split("_")[1]] = prev[n]
+                    del kw[n]
+                kw[f"{t}_{k}"] = -0.5
+                break
+            prev[f"{t}_{k}"] = d["kw"][k]
+            d["kw"][k] = v
             kw[f"{t}_{k}"] = v
     if not kw and gs.names:
         n = rng.choice(gs.names if not coq else gen.edge_param_names(gs.spec["graph"]))
         if coq:
-            for m in [g for g in edge_groups(gs.spec["graph"]) if n in g][0]:
-                kw[m] = gen.gen_value(rng)
+            for m in [g for g in groups if n in g][0]:
+                kw[m] = gs.value(rng, m)
         else:
-            kw[n] = gen.gen_value(rng)
+            kw[n] = gs.value(rng, n)
     return kw
 
 
 def gen_spec(rng, cls, small=False):
-    base = rng.choice([2, 2, 3])
+    base = rng.choice([2, 2, 3] if cls != "Unilateral" else [2, 3])
     maxl = 2 if (cls != "Unilateral" or base == 3 or small) else 3
     g = gen.gen_graph(rng, max_lnls=maxl, base=base)
     spec = {"cls": cls, "graph": g, "max_time": rng.randint(0, 3)}
@@ -932,7 +1013,11 @@ def param_names(spec):
 
 def gen_history(rng, classes, nops, coq):
     specs = [gen_spec(rng, c, small=not coq) for c in classes]
-    gss = [GState(sp, param_names(sp)) for sp in specs]
+    for sp in specs[1:]:
+        if rng.random() < 0.5:               # same graph as the first instance: equal edges in different live models
+            sp["graph"] = copy.deepcopy(specs[0]["graph"])
+    pool = {}
+    gss = [GState(sp, param_names(sp), pool) for sp in specs]
     ops = []
     # a short set-up so that most queries are meaningful, in random order and not always complete
     for i, gs in enumerate(gss):
